@@ -14,7 +14,7 @@ TRUSTED_API = [
 CLAUSES = {
     "C10": r"#(signals:(nothing_stored_for_failed_call|no_path_commit|paths_untouched|store_invariant_preserved|user_exception_propagates_unchanged|nothing_stored_for_failed_root|no_path_commit_on_failure|context_dropped|exception_of_evaluation_propagates_unchanged|exception_propagates_unchanged)|ensures:(context_dropped|eval_ctx_identity_kept)|attr_\w+_of_(None|optional)|frame:no_except_clause)|^(data_function|dds_function)\.decorator_\.wrapper#",
     "C15": r"(^_parse_stages#|#ensures:(dry_run_\w+|no_commit_stage_leaves_paths|delegates_once_with_same_call|returns_its_result)|#signals:only_stage_parsing_may_reject|^(LocalFileStore|MemoryStore|LRUCacheStore)\.(has_blob|fetch_blob|fetch_paths)#.*(read_only|view_unchanged))",
-    "C01": r"(^_is_authorized_type#|^ObjectRetrieval\._retrieve_object_rec#(?!ensures:pinned_)|^ObjectRetrieval\.retrieve_object#|^_introspect_fun#ensures:|^(data_function|dds_function)\.decorator_\.wrapper#ensures:|^InspectFunction\.inspect_call#((ensures|signals):(call_site_context\w+|argument_hashes_\w+|kept_call_passes\w+|plain_call_passes\w+|a_tracked_call_was_descended_into)|args_index_in_range|key_present|attr_\w+)|^FunctionInteractionsUtils\.all_store_paths#|^InspectFunction.inspect_fun#|^_build_return_sig#|^_fis_to_siglist#|^dds_hash_commut#)|#(ensures:(returns_value_of_plain_execution|store_invariant_preserved|stored_under_\w+|stored_value_is_result|store_after_user_call|delegates_to__eval_\w+)|key_present|assert|call:\w+:requires:\w+|index_in_range|iterate_over_None)",
+    "C01": r"(^_is_authorized_type#|^ObjectRetrieval\._retrieve_object_rec#(?!ensures:pinned_)|^ObjectRetrieval\.retrieve_object#|^_introspect_fun#ensures:|^_introspect_class#(ensures:|call:|loop)|^(data_function|dds_function)\.decorator_\.wrapper#ensures:|^InspectFunction\.inspect_call#((ensures|signals):(call_site_context\w+|argument_hashes_\w+|kept_call_passes\w+|plain_call_passes\w+|a_tracked_call_was_descended_into)|args_index_in_range|key_present|attr_\w+)|^FunctionInteractionsUtils\.all_store_paths#|^InspectFunction.inspect_fun#|^_build_return_sig#|^_fis_to_siglist#|^dds_hash_commut#)|#(ensures:(returns_value_of_plain_execution|store_invariant_preserved|stored_under_\w+|stored_value_is_result|store_after_user_call|delegates_to__eval_\w+)|key_present|assert|call:\w+:requires:\w+|index_in_range|iterate_over_None)",
     "C02": r"^InspectFunction.inspect_fun#ensures:(input_sig_has_no_body_deps_subcalls|return_sig_\w+|result_\w+)|^_build_return_sig#ensures|#ensures:(hit_runs_no_user_code|hit_leaves_blobs|miss_runs_user_code_once|miss_result_present_afterwards|kept_root_present_afterwards)",
     "C04": r"(^FunctionInteractionsUtils\.all_store_paths#ensures:(every_kept_node_has_its_path|only_kept_paths)|#ensures:(commit_\w+|commits_exactly_the_collected_paths|paths_overridden_by_collected|paths_untouched|no_path_commit)|#loop\d+\.(init|preserve):(selected_so_far|with_their_collected_signature)|^load#)",
     "C11": r"(^InspectFunction\.inspect_call#(ensures|signals):(descent_\w+|circular_call_\w+|eval_in_eval_\w+|must_be_rejected|rejected_with_the_corresponding_code|nothing_descended|code_matches_the_cause|untracked_call_descends_nowhere|at_most_one_descent|only_coded_dds_errors))|#(signals:(rejected_before_anything_runs|blobs_untouched|overlap_error_only_for_overlapping_paths|EVAL_IN_EVAL|nothing_ran|only_coded_dds_errors|rejected_before_any_user_code|eval_in_eval_only_without_path|only_path_validation_may_reject)|ensures:(overlap_check_ran_on_the_requested_paths|overlapping_paths_never_evaluated|analysis_completes_before_user_code|nested_eval_must_be_rejected)|frame:(no_store_mutation|no_reentry_into_evaluation_api|no_application_of_received_callables|roots_found|reachable_functions_counted))",
